@@ -70,6 +70,14 @@ var vfStrings = []string{"", "a", "ab", "b"}
 func vfMakeEnv(src string, maxLen int) *vfEnv {
 	e := &vfEnv{}
 	uses := func(name string) bool { return strings.Contains(src, name) }
+	small := uses("..")
+	bound := func(x int) int {
+		if small {
+			// run-time ranges are unrolled: every int that can become a range bound stays small
+			vfAssume(x >= -1 && x <= 3)
+		}
+		return x
+	}
 	e.A, e.B = vfInt("A"), vfInt("B")
 	if uses("..") {
 		// bound on run-time ranges: the loop in makeRange is unrolled, so range bounds stay small
@@ -96,7 +104,7 @@ func vfMakeEnv(src string, maxLen int) *vfEnv {
 		n := vfChoice(name+".len", maxLen+1)
 		xs := make([]int, n)
 		for i := range xs {
-			xs[i] = vfInt(name + string(rune('0'+i)))
+			xs[i] = bound(vfInt(name + string(rune('0'+i))))
 		}
 		return xs
 	}
@@ -143,22 +151,22 @@ func vfMakeEnv(src string, maxLen int) *vfEnv {
 	if uses("M") {
 		e.M = map[string]int{}
 		if vfBool("M.has_a") {
-			e.M["a"] = vfInt("M.a")
+			e.M["a"] = bound(vfInt("M.a"))
 		}
 		if vfBool("M.has_b") {
-			e.M["b"] = vfInt("M.b")
+			e.M["b"] = bound(vfInt("M.b"))
 		}
 	}
 	if uses("Ptr") {
 		switch vfChoice("Ptr", 3) {
 		case 1:
-			e.Ptr = &vfNode{V: vfInt("Ptr.V")}
+			e.Ptr = &vfNode{V: bound(vfInt("Ptr.V"))}
 		case 2:
-			e.Ptr = &vfNode{V: vfInt("Ptr.V"), Next: &vfNode{V: vfInt("Ptr.Next.V")}}
+			e.Ptr = &vfNode{V: bound(vfInt("Ptr.V")), Next: &vfNode{V: bound(vfInt("Ptr.Next.V"))}}
 		}
 	}
-	e.Fn = func(x int) int { vfLog = append(vfLog, vfCall{"Fn", x, 0}); return vfUFInt("Fn", x) }
-	e.Hf = func(x int) int { vfLog = append(vfLog, vfCall{"Hf", x, 0}); return vfUFInt("Hf", x) }
+	e.Fn = func(x int) int { vfLog = append(vfLog, vfCall{"Fn", x, 0}); return bound(vfUFInt("Fn", x)) }
+	e.Hf = func(x int) int { vfLog = append(vfLog, vfCall{"Hf", x, 0}); return bound(vfUFInt("Hf", x)) }
 	e.Gn = func(x, y int) bool { vfLog = append(vfLog, vfCall{"Gn", x, y}); return vfUFBool("Gn", x, y) }
 	e.Pf = func(x int) bool { vfLog = append(vfLog, vfCall{"Pf", x, 0}); return vfUFBool("Pf", x) }
 	e.Qf = func(x, y int) bool { vfLog = append(vfLog, vfCall{"Qf", x, y}); return vfUFBool("Qf", x, y) }
